@@ -27,8 +27,10 @@ package c23
 import (
 	"bytes"
 	"fmt"
+	"hash/fnv"
 	"os"
 	"runtime"
+	"sort"
 	"strconv"
 	"strings"
 	"sync"
@@ -50,7 +52,7 @@ func init() {
 	core.Register(&core.Monitor{
 		ID:            "C23",
 		Race:          true,
-		Rule:          "connections from the PRNG, each with 1..3 consecutive requests; a request = API {GetBlock, GetBlockRange} x server batch shape {no-blocks, empty, matching, other, multi(2..5 blocks, the requested one first / somewhere / absent)} (two thirds of the GetBlock requests with the shapes empty and multi are re-drawn from the other shapes, because each of them costs a whole quiescence window) x blocks drawn from the corpus (every era; the 648 kB EBB in one dedicated case per run) x requested point (hash of the target block, PRNG slot) x callback kind {decoded, raw} x server write style {one write, one segment per message with yields, small segments} x perturbation level {0,1,2}; the connection is abandoned after the first request that fails or hangs. A request is non-trivial when the client sent RequestRange, the server wrote its batch and the outcome was judged; distinct by (API, shape, blocks, position in the connection, write style, perturbation)",
+		Rule:          "connections from the PRNG, each with 1..3 consecutive requests; a request = API {GetBlock, GetBlockRange} x server batch shape {no-blocks, empty, matching, other, multi(2..5 blocks, the requested one first / somewhere / absent)} (two thirds of the GetBlock requests with the shapes empty and multi are re-drawn from the other shapes, because each of them costs a whole quiescence window) x blocks drawn from the corpus (every era; the 648 kB EBB in one dedicated case per run) x requested point (hash of the target block, PRNG slot) x callback kind {decoded, raw} (everything handed out - the raw slices without copying, the decoded blocks, the GetBlock results - is kept and compared again with the served bytes and hash after BatchDone, after every later request of the connection and at its end; range batches have 4..6 blocks, half of them in decreasing size, a quarter with one block three times) x server write style {one write, one segment per message with yields, small segments} x perturbation level {0,1,2}; the connection is abandoned after the first request that fails or hangs. A request is non-trivial when the client sent RequestRange, the server wrote its batch and the outcome was judged; distinct by (API, shape, blocks, position in the connection, write style, perturbation)",
 		MinNontrivial: 120,
 		RaceAnchors:   []string{"blockfetch.(*Client).GetBlock", "blockfetch.(*Client).handleBlock", "blockfetch.(*Client).handleBatchDone", "blockfetch.(*Client).handleStartBatch", "blockfetch.(*Client).handleNoBlocks"},
 		Assumptions: []string{
@@ -125,6 +127,9 @@ func genCase(i int, r *core.Rand, blocks []*rig.Block, small []int) *caseSpec {
 			rq.Served = []int{other()}
 		case 4:
 			cnt := r.Range(2, 5)
+			if !rq.Single {
+				cnt = r.Range(4, 6) // ranges: at least four blocks, so that receive buffers get reused
+			}
 			for j := 0; j < cnt; j++ {
 				if rq.Single {
 					rq.Served = append(rq.Served, other())
@@ -140,6 +145,14 @@ func genCase(i int, r *core.Rand, blocks []*rig.Block, small []int) *caseSpec {
 			}
 			if !rq.Single && r.Chance(1, 4) { // the same block twice in a row
 				rq.Served[cnt-1] = rq.Served[cnt-2]
+			}
+		}
+		if !rq.Single && rq.Shape == 4 {
+			switch r.Intn(4) {
+			case 0, 1: // decreasing sizes: every block fits into the buffer of the one before
+				sort.SliceStable(rq.Served, func(a, b int) bool { return len(blocks[rq.Served[a]].Cbor) > len(blocks[rq.Served[b]].Cbor) })
+			case 2: // equal sizes: one block several times, then others
+				rq.Served[1], rq.Served[2] = rq.Served[0], rq.Served[0]
 			}
 		}
 		if !rq.Single && rq.Shape == 3 {
@@ -163,8 +176,11 @@ func genCase(i int, r *core.Rand, blocks []*rig.Block, small []int) *caseSpec {
 type delivered struct {
 	Type uint
 	Hash [32]byte
-	Cbor []byte
-	Done bool // BatchDoneFunc
+	Cbor []byte       // what the callback was handed, NOT copied: the slice (raw) / block.Cbor() (decoded)
+	Sum  uint64       // fingerprint of Cbor at the time of the delivery
+	Blk  ledger.Block // decoded callback: the block itself, kept
+	Path string       // raw | decoded | getblock
+	Done bool         // BatchDoneFunc
 	Bad  string
 }
 
@@ -173,6 +189,47 @@ type connState struct {
 	delivered []delivered
 	cbCount   atomic.Int64
 	events    atomic.Int64
+}
+
+func fingerprint(b []byte) uint64 {
+	h := fnv.New64a()
+	h.Write(b)
+	return h.Sum64()
+}
+
+// kept is something a delivery path handed out earlier on this connection,
+// together with the block the server had sent for it.
+type kept struct {
+	d    delivered
+	want *rig.Block
+	req  int
+	api  string
+}
+
+// recheck compares everything that was handed out on this connection with
+// what the server sent, after later batches and requests have gone by.
+func recheck(c *core.Ctx, cs *caseSpec, keep []kept, when string) {
+	for _, k := range keep {
+		c.Count("retained_"+k.d.Path+"_rechecked", 1)
+		cur := k.d.Cbor
+		hash := k.d.Hash
+		if k.d.Blk != nil {
+			cur = k.d.Blk.Cbor()
+			copy(hash[:], k.d.Blk.Hash().Bytes())
+		}
+		if bytes.Equal(cur, k.want.Cbor) && hash == k.want.Hash {
+			continue
+		}
+		what := "differs from the served block"
+		if k.d.Sum == fingerprint(k.want.Cbor) {
+			what = "was the served block when it was handed out and has changed since"
+		}
+		c.Violation("C23:"+k.api+":retained-changed:"+k.d.Path, fmt.Sprintf("%s: the %s data handed out for request #%d (%s, type %d, hash %x) %s (checked %s)",
+			k.api, k.d.Path, k.req, k.want.Name, k.want.Type, k.want.Hash[:6], what, when),
+			map[string]any{"case": cs.Idx, "path": k.d.Path, "request_index": k.req, "served_block": k.want.Name, "served_len": len(k.want.Cbor),
+				"now_len": len(cur), "now_head": core.Hex(cur), "served_head": core.Hex(k.want.Cbor), "requests": len(cs.Reqs), "write_style": cs.Style})
+		return
+	}
 }
 
 func (st *connState) add(d delivered) {
@@ -346,7 +403,7 @@ func runCase(c *core.Ctx, cs *caseSpec, blocks []*rig.Block, abandoned *atomic.I
 	}
 	if cs.Raw {
 		opts = append(opts, blockfetch.WithBlockRawFunc(func(_ blockfetch.CallbackContext, t uint, data []byte) error {
-			d := delivered{Type: t, Cbor: append([]byte(nil), data...)}
+			d := delivered{Type: t, Cbor: data, Sum: fingerprint(data), Path: "raw"} // the slice is kept, not copied
 			if n, err := cborx.ParseExact(data); err == nil && n.Kind == cborx.Array && len(n.Items) > 0 {
 				d.Hash = rig.HeaderHash(t, n.Items[0].Slice(data))
 			} else {
@@ -361,7 +418,8 @@ func runCase(c *core.Ctx, cs *caseSpec, blocks []*rig.Block, abandoned *atomic.I
 			if b == nil {
 				d.Bad = "nil block"
 			} else {
-				d.Cbor = b.Cbor()
+				d.Cbor, d.Blk, d.Path = b.Cbor(), b, "decoded"
+				d.Sum = fingerprint(d.Cbor)
 				copy(d.Hash[:], b.Hash().Bytes())
 			}
 			st.add(d)
@@ -397,6 +455,7 @@ func runCase(c *core.Ctx, cs *caseSpec, blocks []*rig.Block, abandoned *atomic.I
 		return st.events.Load() + st.cbCount.Load() + l.A.BytesWritten() + l.B.BytesWritten() + int64(w)
 	}
 
+	var keep []kept // everything the delivery paths have handed out on this connection
 	for k := range cs.Reqs {
 		rq := &cs.Reqs[k]
 		w := describe(rq, blocks)
@@ -568,15 +627,19 @@ func runCase(c *core.Ctx, cs *caseSpec, blocks []*rig.Block, abandoned *atomic.I
 		}
 		stop := false
 		if rq.Single {
-			stop = judgeSingle(c, rq, blocks, res, got, errs, w)
+			stop = judgeSingle(c, rq, blocks, res, got, errs, w, &keep, k)
 		} else {
-			stop = judgeRange(c, rq, blocks, res, got, errs, w)
+			stop = judgeRange(c, rq, blocks, res, got, errs, w, &keep, k)
+		}
+		if len(keep) > 0 {
+			recheck(c, cs, keep, fmt.Sprintf("after request #%d", k))
 		}
 		c.Distinct(rq.api(), shape, fmt.Sprint(rq.Served), k, cs.Style, cs.Perturb)
 		if stop {
 			break
 		}
 	}
+	recheck(c, cs, keep, "at the end of the connection")
 	// ---- tear down
 	if !l.Close(watchdog) {
 		c.Count("teardown_slow", 1)
@@ -598,7 +661,7 @@ func runCase(c *core.Ctx, cs *caseSpec, blocks []*rig.Block, abandoned *atomic.I
 }
 
 // judgeSingle: GetBlock returned. Returns true when the connection should not be used further.
-func judgeSingle(c *core.Ctx, rq *request, blocks []*rig.Block, res callRes, got []delivered, errs []error, w map[string]any) bool {
+func judgeSingle(c *core.Ctx, rq *request, blocks []*rig.Block, res callRes, got []delivered, errs []error, w map[string]any, keep *[]kept, k int) bool {
 	shape := shapeNames[rq.Shape]
 	if len(got) > 0 {
 		w["callbacks"] = len(got)
@@ -637,6 +700,11 @@ func judgeSingle(c *core.Ctx, rq *request, blocks []*rig.Block, res callRes, got
 			c.Violation("C23:GetBlock:matching-bytes-differ", "GetBlock returned a block with the requested hash whose Cbor() is not the served bytes", w)
 		}
 		c.Count("GetBlock_matching_verified", 1)
+		if bytes.Equal(res.blk.Cbor(), want.Cbor) {
+			d := delivered{Type: uint(res.blk.Type()), Cbor: res.blk.Cbor(), Blk: res.blk, Path: "getblock", Hash: want.Hash}
+			d.Sum = fingerprint(d.Cbor)
+			*keep = append(*keep, kept{d: d, want: want, req: k, api: "GetBlock"})
+		}
 	case 4:
 		c.Violation("C23:GetBlock:multi-block-success", fmt.Sprintf("GetBlock(%s) succeeded although the server sent %d blocks", rq.End, len(rq.Served)), w)
 	default:
@@ -646,7 +714,7 @@ func judgeSingle(c *core.Ctx, rq *request, blocks []*rig.Block, res callRes, got
 }
 
 // judgeRange: GetBlockRange returned and (for a batch) the completion callback was seen or the call failed.
-func judgeRange(c *core.Ctx, rq *request, blocks []*rig.Block, res callRes, got []delivered, errs []error, w map[string]any) bool {
+func judgeRange(c *core.Ctx, rq *request, blocks []*rig.Block, res callRes, got []delivered, errs []error, w map[string]any, keep *[]kept, k int) bool {
 	shape := shapeNames[rq.Shape]
 	var blks []delivered
 	doneAt := -1
@@ -700,12 +768,20 @@ func judgeRange(c *core.Ctx, rq *request, blocks []*rig.Block, res callRes, got 
 			return false
 		}
 		want, d := blocks[rq.Served[i]], blks[i]
+		if d.Bad == "" && d.Type == want.Type && d.Sum == fingerprint(want.Cbor) && !bytes.Equal(d.Cbor, want.Cbor) {
+			// handed out intact, overwritten before the batch was over
+			w["callback_index"] = i
+			w["now_head"] = core.Hex(d.Cbor)
+			c.Violation("C23:GetBlockRange:retained-changed:"+d.Path, fmt.Sprintf("the %s data handed to block callback #%d (%s) was the served block at that time and has changed by the time BatchDoneFunc ran (a later block of the batch was written over it)", d.Path, i, want.Name), w)
+			return false
+		}
 		if d.Bad != "" || d.Type != want.Type || d.Hash != want.Hash || !bytes.Equal(d.Cbor, want.Cbor) {
 			w["callback_index"] = i
 			w["callback"] = fmt.Sprintf("type %d hash %x %s", d.Type, d.Hash[:], d.Bad)
 			c.Violation("C23:GetBlockRange:sequence", fmt.Sprintf("block callback #%d got type %d hash %x, the server's block #%d was %s (type %d, hash %x)", i, d.Type, d.Hash[:6], i, want.Name, want.Type, want.Hash[:6]), w)
 			return false
 		}
+		*keep = append(*keep, kept{d: d, want: want, req: k, api: "GetBlockRange"})
 	}
 	if doneAt < 0 {
 		c.Violation("C23:GetBlockRange:no-completion", "all blocks were delivered but BatchDoneFunc was not called", w)
